@@ -2,6 +2,7 @@ import KdVerif.Proofs.Pairing
 import KdVerif.Proofs.Projection
 import KdVerif.Proofs.PyIR
 import KdVerif.Gen.PyIR
+import KdVerif.Proofs.PyIRTp
 /-
   C04 — START/END pairing delivers exactly each operation's per-thread event window.
 
@@ -294,8 +295,11 @@ example : traces (fun eid => eid == 4) dom8 demo =
 
 /-- The program generated from the source text is, node for node, the program the refinement below was proved
     for (`Spec/PyIRExpected`, a hand-written copy quoting the Python), and the translator met nothing it could
-    not express.  Any statement, condition, table entry or evaluation order that changes makes this false. -/
-theorem source_is_expected_ir : Gen.PyIR.prog = PyIR.Expected.prog ∧ Gen.PyIR.notes = [] := by decide
+    not express.  Any statement, condition, table entry or evaluation order that changes makes this false.  Likewise
+    the generator wrapper `feed_generator` and the constructor `__init__` (`Spec/PyIRTpExpected`; theorems at the end of
+    this file and of `Props/C17`). -/
+theorem source_is_expected_ir : Gen.PyIR.prog = PyIR.Expected.prog ∧ Gen.PyIR.notes = [] ∧
+    Gen.PyIR.feedGenerator = PyIRTp.Expected.feedGenerator ∧ Gen.PyIR.init = PyIRTp.Expected.init := by decide
 
 /-- ONE `feed(e)`, for EVERY well-formed heap `w`, every event `e` with a two-bit qualifier (C01.qualifier_range) and
     every `cfg`: the interpreter does not raise; the heap it leaves is well-formed and abstracts to the model's next
@@ -388,5 +392,143 @@ example : (PyIR.runFrom Gen.PyIR.prog cfgDemo PyIR.World.empty (demoIR.take 3)).
 
 example : PyIR.invoke Gen.PyIR.prog cfgDemo 1 .parseEventList [.list []] PyIR.World.empty = .error .indexError := by
   rw [parse_event_list_ir_eq_gate]; rfl
+
+/-! ### translation tie, continued: the generator wrapper `feed_generator`
+
+  `tools/gen_pyir.py` also translates `TracesParser.feed_generator(self, generator)` — `for event in generator: ret =
+  self.feed(event); if ret is not None: yield ret` — into the generator subset of `Model/PyIRTp` (`Gen.PyIR.feedGenerator`).
+  `PyIRTp.runFeedGen prog g cfg es err w` consumes `parser.feed_generator(<a generator that delivers the events es and then
+  raises err, if any>)` to its end on the heap `w`; `self.feed(event)` is answered by the interpreter of `Model/PyIR` running
+  the TRANSLATED `feed` (the subject of `source_ir_refines_model`).  The answer: the values yielded, in order, then the final
+  heap — or the exception that ended the stream, after the values already delivered. -/
+
+/-- **feed_generator_ir_eq_model.**  For EVERY event list `es`, every exception `err` the event generator itself may end
+    with, every initial heap `w` (well-formed or not) and every `cfg`: the interpreted `feed_generator` of the source IS the
+    pipeline model `feedGen` (`Model/Pipeline`) instantiated with the interpreted `feed` (`PyIRTp.feedStep`: state = heap,
+    item delivered = the returned value unless it is `None`):
+    * it yields exactly the traces `feedGen` delivers, in the same order;
+    * an exception of `feed` ends the stream after the traces already delivered (`feedGen`'s second component, which is
+      the exception the state machine `PyIRTp.finalState` stops with); the generator's own exception surfaces when
+      everything it delivered was consumed without one; otherwise the generator ends in the state the state machine ends
+      in (`PyIRTp.outcome`). -/
+theorem feed_generator_ir_eq_model (cfg : PyIR.Cfg) (w : PyIR.World) (es : List Kevent) (err : Option PyErr) :
+    (PyIRTp.runFeedGen Gen.PyIR.prog Gen.PyIR.feedGenerator cfg es err w).1 =
+        (feedGen (PyIRTp.feedStep Gen.PyIR.prog cfg) w es).1 ∧
+    (PyIRTp.runFeedGen Gen.PyIR.prog Gen.PyIR.feedGenerator cfg es err w).2 =
+        PyIRTp.outcome (PyIRTp.finalState (PyIRTp.feedStep Gen.PyIR.prog cfg) w es) err ∧
+    (feedGen (PyIRTp.feedStep Gen.PyIR.prog cfg) w es).2 =
+        PyIRTp.errOf (PyIRTp.finalState (PyIRTp.feedStep Gen.PyIR.prog cfg) w es) := by
+  rw [source_is_expected_ir.2.2.1, PyIRTp.runFeedGen_expected, PyIRTp.thenRaise_eq, PyIRTp.feedGenS_fst,
+    PyIRTp.feedGenS_snd]
+  exact ⟨rfl, rfl, PyIRTp.feedGen_err _ es w⟩
+
+/-- … composed with `run_ir_eq_run_model`: a FRESH parser (both window tables empty) fed a whole history through the
+    interpreted `feed_generator` never raises by itself, yields exactly the non-`None` answers of the pairing model
+    (`Pairing.outputs` through the gate, i.e. one handler result per delivered decodable window, in order), hands
+    `parse_event_list` exactly `Pairing.run`, and leaves the tables of `Pairing.stateAfter`. -/
+theorem feed_generator_ir_eq_pairing_model (cfg : PyIR.Cfg) (h : List Kevent) (hq : ∀ e ∈ h, e.qual < 4)
+    (err : Option PyErr) :
+    ∃ w', PyIRTp.runFeedGen Gen.PyIR.prog Gen.PyIR.feedGenerator cfg h err PyIR.World.empty =
+        (((outputs (PyIR.domOf cfg) PState.empty h).map (PyIR.retOf cfg)).filter (fun v => decide (v ≠ .none)),
+         match err with | some x => .error x | none => .ok w') ∧
+      w'.calls = run (PyIR.domOf cfg) h ∧ PyIR.abs w' = stateAfter (PyIR.domOf cfg) h ∧ PyIR.WF w' := by
+  obtain ⟨w', h1, h2, h3, h4⟩ := run_ir_eq_run_model cfg h hq
+  refine ⟨w', ?_, h2, h3, h4⟩
+  rw [source_is_expected_ir.2.2.1, PyIRTp.runFeedGen_expected, PyIRTp.feedGenS_of_runFrom _ cfg h _ _ _ h1,
+    PyIRTp.thenRaise_eq]
+  cases err <;> rfl
+
+private instance exceptDecEq {ε α : Type} [DecidableEq ε] [DecidableEq α] : DecidableEq (Except ε α)
+  | .ok a, .ok b => if h : a = b then isTrue (by rw [h]) else isFalse (fun e => h (Except.ok.inj e))
+  | .error a, .error b => if h : a = b then isTrue (by rw [h]) else isFalse (fun e => h (Except.error.inj e))
+  | .ok _, .error _ => isFalse (fun e => nomatch e)
+  | .error _, .ok _ => isFalse (fun e => nomatch e)
+
+private instance prodExceptDecEq {α ε β : Type} [DecidableEq α] [DecidableEq ε] [DecidableEq β] :
+    DecidableEq (α × Except ε β) := inferInstance
+
+/-- non-vacuity: the GENERATED `feed_generator` over the demo history of the tie above, from empty tables: ONE trace is
+    yielded (the window of code 4 — the only name with a handler; the windows of codes 8 and 12 are dropped by the gate,
+    the other three records deliver nothing), `parse_event_list` saw the three windows, and thread 1 is left with no open
+    code. -/
+example : (PyIRTp.runFeedGen Gen.PyIR.prog Gen.PyIR.feedGenerator cfgDemo demoIR none PyIR.World.empty).1 =
+    [.result 1 [ev 0 1 4 1, ev 1 1 12 1, ev 3 1 4 2]] := by decide
+
+example : (match (PyIRTp.runFeedGen Gen.PyIR.prog Gen.PyIR.feedGenerator cfgDemo demoIR none PyIR.World.empty).2 with
+    | .ok w => some (w.events, w.traces, w.calls.length)
+    | .error _ => none) = some ([(1, [])], [], 3) := by decide
+
+/-- … it equals the pipeline model over the generated `feed` -/
+example : (PyIRTp.runFeedGen Gen.PyIR.prog Gen.PyIR.feedGenerator cfgDemo demoIR none PyIR.World.empty).1 =
+    (feedGen (PyIRTp.feedStep Gen.PyIR.prog cfgDemo) PyIR.World.empty demoIR).1 := by decide
+
+/-- … the event generator's own exception (a truncated dump: `EOFError` of the reader) surfaces after the trace was
+    delivered -/
+example : PyIRTp.runFeedGen Gen.PyIR.prog Gen.PyIR.feedGenerator cfgDemo (demoIR.take 4) (some .eof) PyIR.World.empty =
+    ([.result 1 [ev 0 1 4 1, ev 1 1 12 1, ev 3 1 4 2]], .error .eof) := by decide
+
+/-- … an exception of `feed` itself (a qualifier outside the dict: `KeyError` of `self.qualifiers_actions[…]`) ends the
+    stream after the trace already delivered; the records behind it are never fed -/
+example : PyIRTp.runFeedGen Gen.PyIR.prog Gen.PyIR.feedGenerator cfgDemo
+      (demoIR.take 4 ++ [ev 9 1 4 7, ev 10 1 4 1, ev 11 1 4 2]) none PyIR.World.empty =
+    ([.result 1 [ev 0 1 4 1, ev 1 1 12 1, ev 3 1 4 2]], .error .keyError) := by decide
+
+/-! ### translation tie, continued: the constructor `__init__`
+
+  `tools/gen_pyir.py` translates `TracesParser.__init__(self, trace_codes_map, threads_pids, pids_names)` into
+  `Gen.PyIR.init : PyIRTp.InitDef`: the initialisers `self.<attr> = <parameter>` / `self.<attr> = {}` SORTED by attribute
+  (they do not depend on each other: every value is a bare parameter or an empty dict display, checked by the translator;
+  `dict()` = `{}`), and the `self.handlers.update(<family>_handlers)` calls in source order (the registry: `Props/C17`).
+  `PyIRTp.runInit d n` constructs the object from `n` arguments: which OBJECT each attribute is — `Ref.arg k`, the caller's
+  k-th argument ITSELF, or `Ref.fresh n`, the n-th dict the constructor made, empty. -/
+
+/-- **init_ir_eq_model.**  The interpreted `__init__` of the source produces exactly the initial parser state the hand
+    models start from:
+    * all ten attributes are bound;
+    * `trace_codes`, `threads_pids`, `pids_names` ARE the caller's three arguments — shared, not copied: what the container
+      parser writes into the caller's tables after construction (`set_thread_map`), the decoders read, and what the
+      `TRACE_*` handlers declare, the caller's formatter sees;
+    * `on_going_events` and `on_going_traces` are two DIFFERENT new empty dicts: the heap is `PyIR.World.empty`, from which
+      `run_ir_eq_run_model` / `feed_generator_ir_eq_pairing_model` start, and it abstracts to `Pairing.PState.empty`, from
+      which `run` / `stateAfter` / `outputs` start;
+    * with `global_strings`, `tids_names`, `last_data_newthread`, `last_data_exec` and `handlers` that makes seven
+      pairwise different new dicts;
+    * so for ANY contents `tp` / `pn` of the caller's two tables the whole-parser state is
+      `{ pairing := PState.empty, tabs := { threadsPids := tp, pidsNames := pn } }` — the other four context tables of
+      `Trace.Tabs` empty: the `startState` of `Model/TracePipeline` (next theorem). -/
+theorem init_ir_eq_model :
+    ∃ o, PyIRTp.runInit Gen.PyIR.init 3 = .ok o ∧
+      (∀ a, (o.get a).isSome = true) ∧
+      o.get .traceCodes = some (.arg 0) ∧ o.get .threadsPids = some (.arg 1) ∧ o.get .pidsNames = some (.arg 2) ∧
+      o.world = some PyIR.World.empty ∧ PyIR.abs PyIR.World.empty = PState.empty ∧
+      (∃ ns, o.freshOf [.onGoingEvents, .onGoingTraces, .globalStrings, .tidsNames, .lastDataNewthread, .lastDataExec,
+          .handlers] = some ns ∧ ns.Nodup) ∧
+      ∀ (tp : Trace.Dict Nat) (pn : Trace.Dict String),
+        o.state tp pn = some { pairing := PState.empty, tabs := { threadsPids := tp, pidsNames := pn } } := by
+  refine ⟨PyIRTp.expectedObj, ?_, ?_, rfl, rfl, rfl, rfl, PyIR.abs_empty, ⟨[0, 1, 2, 3, 4, 5, 6], rfl, by decide⟩,
+    PyIRTp.expectedObj_state⟩
+  · rw [source_is_expected_ir.2.2.2]; exact PyIRTp.runInit_expected
+  · intro a; cases a <;> rfl
+
+/-- … that state is where the request-level model starts: for every dump, the state of the object the interpreted
+    `__init__` builds on the caller's tables as `set_thread_map` fills them is `TracePipeline.startState`. -/
+theorem init_state_is_model_start (d : TracePipeline.Dump) :
+    ∃ o, PyIRTp.runInit Gen.PyIR.init 3 = .ok o ∧
+      o.state (Declared.mapTabs d.threadMap).threadsPids (Declared.mapTabs d.threadMap).pidsNames =
+        some (TracePipeline.startState d) := by
+  obtain ⟨o, h, _, _, _, _, _, _, _, hs⟩ := init_ir_eq_model
+  exact ⟨o, h, by rw [hs]; rfl⟩
+
+/-- a constructor called with another number of arguments raises `TypeError` -/
+example : PyIRTp.runInit Gen.PyIR.init 2 = .error .typeError := by decide
+
+/-- non-vacuity of the sharing clause: the interpreter tells a shared table from a copied one and one window table from
+    two — a constructor that binds `threads_pids` to a new dict, or both window tables to one object, has no model state. -/
+example : ((PyIRTp.runInit { Gen.PyIR.init with sets := Gen.PyIR.init.sets.map fun s =>
+      if s.1 = .threadsPids then (s.1, .emptyDict) else s } 3).toOption.bind fun o => o.tabs [] []).isNone = true := by
+  decide
+
+example : (PyIRTp.Obj.world { attrs := [(.onGoingEvents, .fresh 0), (.onGoingTraces, .fresh 0)], made := 1 }) = none := by
+  decide
 
 end KdVerif.C04
